@@ -475,6 +475,20 @@ def check_theorems(rep, pid, theorems, deps):
     return allok
 
 
+def coqchk(rep, pid, theorems, timeout=3000):
+    """Thorough tier: re-check the compiled property theorems and everything they depend on with the independent
+    checker coqchk and record the axioms it reports (obligation fails on any axiom / type-in-type / unsafe fixpoint)."""
+    mods = " ".join(f"V.Props.{pid}.{t}" for t in theorems)
+    rc, out = sh(f"timeout {timeout} coqchk -silent -o -R . V {mods}", cwd=COQ, timeout=timeout + 30)
+    summary = out[out.find("CONTEXT SUMMARY"):] if "CONTEXT SUMMARY" in out else out[-1500:]
+    clean = rc == 0 and all(re.search(rf"\* {k}:\s*<none>", summary) for k in
+                            ("Axioms", "Constants/Inductives relying on type-in-type",
+                             "Constants/Inductives relying on unsafe \\(co\\)fixpoints", "Inductives whose positivity is assumed"))
+    rep.coverage["coqchk"] = " ".join(summary.split())[:600]
+    rep.obligation("coqchk:-o over the property theorems' closure reports no axioms", clean, summary)
+    return clean
+
+
 def audit(rep):
     probs = audit_sources()
     rep.obligation("audit:no-Admitted/Axiom/Parameter/unsafe-flags", not probs, "; ".join(probs))
